@@ -73,6 +73,10 @@ func (t *Txn) Commit() error {
 	orc.writeLock.Lock()
 	defer orc.writeLock.Unlock()
 
+	if t.db.State() == StateClosed {
+		return ErrDBClosed
+	}
+
 	commitTs, hasConflict := orc.newCommitTs(t)
 	if hasConflict {
 		return ErrConflictTxn
